@@ -7943,9 +7943,13 @@ func (p *Parser) closureAfterArrow(firstSpan *position.Location, params []ast.Pa
 	var location *position.Location
 	arrowTok, ok := p.matchOk(token.THIN_ARROW, token.WIGGLY_ARROW)
 	if !ok {
+		// matchOk returns a nil token on mismatch: report the unexpected lookahead instead
+		p.errorExpected("-> or ~>")
+		p.updateErrorMode(true)
+		tok := p.advance()
 		return ast.NewInvalidNode(
-			arrowTok.Location(),
-			arrowTok,
+			tok.Location(),
+			tok,
 		)
 	}
 	lambda := arrowTok.Type == token.WIGGLY_ARROW
